@@ -262,7 +262,13 @@ fn records(t: &mut Tape, obs: &mut Obs) -> R {
 }
 
 fn hs_header(t: &mut Tape, obs: &mut Obs) -> R {
-    let frag = t.small_blob(300);
+    // fragment bodies are mostly small; sometimes larger than a record or than 16 bits (the message parser is public and takes any buffer)
+    let frag = if t.chance(6) {
+        let n = t.pick(&[16628usize, 16629, 16640, 16641, 20000, 65535, 65536, 70000]);
+        t.bytes(n)
+    } else {
+        t.small_blob(300)
+    };
     let fl = frag.len() as u32;
     let msg_type = if t.bool() { t.pick(&[1u8, 2, 3, 11, 14, 16]) } else { t.u8() };
     let message_seq = t.u16b();
@@ -332,13 +338,31 @@ fn datagram(t: &mut Tape, obs: &mut Obs) -> R {
     }
     obs.class(&format!("records={}", n));
     obs.sample(json!({"records": n, "bytes": buf.len(), "hex": hex_short(&buf)}));
+    // optionally a complete record the DTLS parser does not decode (application data, heartbeat, unknown type) at the end:
+    // the records before it must still be returned, record by record
+    let extra: Vec<u8> = if t.chance(70) {
+        let mut e = Enc::new();
+        e.u8(t.pick(&[0x17u8, 0x18, 0x19, 0x00, 0xff]));
+        e.u16(0xfefd);
+        e.u16(1);
+        e.u48(9);
+        let d = t.small_blob(40);
+        e.vec(2, "drec.len", &d);
+        e.buf
+    } else {
+        vec![]
+    };
+    buf.extend_from_slice(&extra);
+    if !extra.is_empty() {
+        obs.class("with-undecodable-last-record");
+    }
     let got = guard("parse_dtls_plaintext_records", || match parse_dtls_plaintext_records(&buf) {
         Ok((rem, v)) => Ok((rem.len(), v.iter().map(conv::dtls_record).collect::<Vec<_>>())),
         Err(e) => Err(format!("{:?}", e.map(|x| x.code))),
     })?;
     match got {
         Ok((rl, v)) => {
-            ensure!(rl == 0, "C10:datagram:remainder", "{} bytes left after {} records", rl, n);
+            ensure!(rl == extra.len(), "C10:datagram:remainder", "{} bytes left after {} records, expected {}", rl, n, extra.len());
             let want: Vec<Option<MDtlsRecord>> = recs.iter().cloned().map(Some).collect();
             ensure!(v == want, "C10:datagram:value", "datagram of {} records decoded to {} records: {} expected {}", n, v.len(), trunc(&format!("{:?}", v)), trunc(&format!("{:?}", want)));
         }
